@@ -11,7 +11,7 @@ package oauth
 //verif:stub (github.com/tucats/ego/internal/resources.ResHandle).Equals = c22Equals
 //verif:dropgo github.com/tucats/ego/internal/caches.expire
 //verif:overlay internal/language/tokens/zz_verif_c22_hook.go <- harness:C22/tokens_hook.go.txt
-//verif:bound histories of 3 (quick) / 4 (thorough) operations from {present token 0 or 1, revoke a token ID, the result cache loses a token's entry, the revocation cache loses an ID's entry} over two JWTs; per JWT the signature, issuer, audience each valid or not, the exp claim present or not and an arbitrary instant, the token ID one of {none, j0, j1}; the clock an arbitrary non-decreasing instant before every operation
+//verif:bound histories of 4 operations (thorough: also 6 operations over a single JWT) from {present token 0 or 1, revoke a token ID, the result cache loses a token's entry, the revocation cache loses an ID's entry} over two JWTs, each verifying or not, with exp an arbitrary instant and the token ID one of {none, j0, j1}; single presentations with every combination of valid/invalid signature, issuer, audience and present/absent exp; the clock an arbitrary non-decreasing instant before every operation
 //verif:assume parseAndValidateJWT is replaced under the engine by its contract: it returns the claims exactly when signature, issuer and audience verify, exp is present and the clock is before exp (the native replay twin runs the real function on real ES256-signed tokens against a published key); the revocation table returns exactly the rows whose id equals the filter (natively: the real SQLite store); cache entries may disappear at any time (sweeper, full cache, purge) and this is modelled by explicit delete operations
 //verif:outside the JWT library itself (signature arithmetic, claim parsing), JWKS fetching over HTTP, concurrent requests, the bearer dispatch in router/auth.go
 
@@ -195,19 +195,54 @@ func VerifC22_revokedOrExpiredJWTIsRefused() {
 	sym.WithFakeClock(c22History)
 }
 
-func c22History() {
+// VerifC22_everyClaimIsVerified: one presentation (or one revocation first) of a
+// JWT with every combination of valid/invalid signature, issuer, audience and
+// exp: accepted only if all four verify.
+func VerifC22_everyClaimIsVerified() {
+	var dbFile string
+	if !sym.Symbolic() {
+		f, err := os.CreateTemp("", "c22-*.db")
+		if err != nil {
+			panic(err)
+		}
+		dbFile = f.Name()
+		f.Close()
+		defer os.Remove(dbFile)
+	}
+	c22Rows = nil
+	if err := tokens.SetDatabasePath("sqlite3://" + dbFile); err != nil {
+		panic(err)
+	}
+	sym.WithFakeClock(func() { c22Run(true) })
+}
+
+func c22History() { c22Run(false) }
+
+func c22Run(singleShot bool) {
 	sym.Clock()
 	jtis := []string{"", "j0", "j1"}
 	c22Tokens = nil
-	for k := 0; k < 2; k++ {
+	// thorough adds deeper histories over a single token
+	deep := !singleShot && sym.Thorough() && sym.Bool("oneTokenDeepHistory")
+	nTok := 2
+	if deep {
+		nTok = 1
+	}
+	for k := 0; k < nTok; k++ {
+		// in the histories a token either verifies completely or has a bad
+		// signature; each single claim is varied in VerifC22_everyClaimIsVerified
+		valid := sym.Bool("verifies")
 		t := &c22Token{
 			str:     []string{"h.p0.s", "h.p1.s"}[k],
-			sigOK:   sym.Bool("signatureValid"),
-			issOK:   sym.Bool("issuerMatches"),
-			audOK:   sym.Bool("audienceMatches"),
-			hasExp:  sym.Bool("hasExp"),
+			sigOK:   valid,
+			issOK:   true,
+			audOK:   true,
+			hasExp:  true,
 			jti:     jtis[sym.Choice("jti", 3)],
 			subject: []string{"alice", "bob"}[k],
+		}
+		if singleShot {
+			t.sigOK, t.issOK, t.audOK, t.hasExp = sym.Bool("signatureValid"), sym.Bool("issuerMatches"), sym.Bool("audienceMatches"), sym.Bool("hasExp")
 		}
 		t.exp = sym.Instant("exp")
 		c22Tokens = append(c22Tokens, t)
@@ -246,15 +281,18 @@ func c22History() {
 	}()
 
 	revoked := map[string]bool{}
-	steps := 3
-	if sym.Thorough() {
-		steps = 4
+	steps := 4
+	if deep {
+		steps = 6
+	}
+	if singleShot {
+		steps = 2
 	}
 	for i := 0; i < steps; i++ {
 		now := sym.Clock()
 		switch sym.Choice("op", 4) {
 		case 0:
-			t := c22Tokens[sym.Choice("token", 2)]
+			t := c22Tokens[sym.Choice("token", nTok)]
 			user, _, err := ValidateJWT(1, t.str)
 			sym.Observe("accepted", err == nil)
 			if err != nil {
@@ -277,7 +315,7 @@ func c22History() {
 			}
 			revoked[j] = true
 		case 2:
-			caches.Delete(caches.OAuthJWTCache, c22Tokens[sym.Choice("lostToken", 2)].str)
+			caches.Delete(caches.OAuthJWTCache, c22Tokens[sym.Choice("lostToken", nTok)].str)
 		default:
 			caches.Delete(caches.BlacklistCache, jtis[1+sym.Choice("lostID", 2)])
 		}
